@@ -78,6 +78,8 @@ def mechanism (notes : List String) : String :=
     | "status-clash" => "LU-C a last-write-wins map received one user with both relationship statuses"
     | "excl-flip" => "LU-A exclusion re-issues a base entry without relationship as HasRelationship because the subtracted entry has NoRelationship"
     | "excl-wild-has" => "LU-B exclusion with a wildcard in the base re-issues a base entry without relationship with the zero status HasRelationship"
+    | "excl-wild-flip" => "LU-B exclusion with a wildcard in the base re-issues a subtracted NoRelationship entry as HasRelationship although the base lists that user as NoRelationship"
+    | "excl-sub-cut" => "the subtracted operand was cut by the cycle guard below a rewrite that forgets hasCycle"
     | "excl-cycle" => "LU-F1 exclusion returns nothing because its subtracted operand reported a cycle"
     | "filter-rel" => "LU-D expandDirect ignores the relation of the user filter"
     | "union-excl-lost" => "LU-E union forgets that an operand excepted a user from its wildcard (excludedUsers kept only when counted once per operand)"
